@@ -322,7 +322,10 @@ func c06(c *Ctx) {
 		var orig types.Object
 		inspectNoLit(fn.Body(), func(n ast.Node) bool {
 			if as, ok := n.(*ast.AssignStmt); ok && as.Tok == token.DEFINE && len(as.Lhs) == 1 && len(as.Rhs) == 1 && isField(info, as.Rhs[0], fRead) {
-				orig = objOf(info, as.Lhs[0])
+				// the saved entry value: a local that is never assigned again (a cursor that starts at read and moves on is not)
+				if o := objOf(info, as.Lhs[0]); o != nil && g.LocalDef(o) != nil {
+					orig = o
+				}
 			}
 			return true
 		})
